@@ -3,6 +3,7 @@
 //! an ndjson event log that TLC validates against a Trace*.tla specification.
 mod codec;
 mod ring;
+mod single;
 mod util;
 mod vbus;
 mod world;
@@ -19,6 +20,7 @@ fn main() {
     match cmd.as_str() {
         "codec" => codec::run(&args),
         "ring" => ring::run(&args),
+        "single" => single::run(&args),
         _ => {
             eprintln!("usage: pbv <codec|...> --out FILE --seed N --tier quick|thorough");
             std::process::exit(2);
